@@ -111,7 +111,9 @@ func (db *DB) mpoolDrain() {
 			case <-db.memPool:
 			case <-time.After(time.Second):
 			}
-			close(db.memPool)
+			// The pool channel is deliberately not closed: a late mpoolPut (its
+			// closed check and its send are not atomic) would race with the
+			// close and could panic with a send on a closed channel.
 			return
 		}
 	}
